@@ -167,6 +167,14 @@ func init() {
 				// at another vertical or horizontal zoom are another voxel with its own neighbourhood)
 				l = append(l, relative(l[rng.Intn(len(l))]))
 			}
+			if rng.Intn(6) == 0 { // a voxel of a grid that is narrower than the stencil (zoom 0 or 1), first or last in the list
+				c := clampExt(ext{int64(rng.Intn(2)), int64(rng.Intn(2)), int64(rng.Intn(2)), zoomNear(base.v, 2, 2), base.f})
+				if rng.Intn(2) == 0 {
+					l = append(l, c)
+				} else {
+					l = append([]ext{c}, l...)
+				}
+			}
 			idl := maybeCorrupt(ids(l), 0.04)
 			if rng.Intn(25) == 0 { // the empty list (also together with negative layer counts)
 				idl = nil
